@@ -63,7 +63,7 @@ func ClassProgram(g *G) *ClassCase {
 	// §f = field reference, @m( = method call
 	type method struct {
 		name, params, results, body string
-		mutates                      bool
+		mutates                     bool
 	}
 	var ms []method
 	ms = append(ms, method{"area", "", "int", "return §w * §h + " + fmt.Sprint(g.Intn(5, "k")), false})
